@@ -43,7 +43,10 @@ type world struct {
 	dir      string                 // leveldb directory of the region storage (leveldb mode)
 	held     map[int]*heldHeartbeat // heartbeats parked at their first storage write
 	panicked bool
+	g        *grpcWorld // the in-process PD server of a `reset grpc` sequence
 }
+
+var currentLogLevel = zapcore.ErrorLevel
 
 // gateKV wraps the kv.Base of core.Storage (an exported embedded interface): when armed, the next Save or Remove
 // parks its goroutine until it is released.
@@ -67,6 +70,7 @@ func (g *gateKV) failNext() {
 // renderingLogger replaces pd's global logger by one that RENDERS every entry of the given level and above
 // (fields included, which is where Stringer fields such as RegionToHexMeta run) into a discard sink.
 func renderingLogger(level zapcore.Level) {
+	currentLogLevel = level
 	core := zapcore.NewCore(zapcore.NewJSONEncoder(zap.NewProductionEncoderConfig()), zapcore.AddSync(io.Discard), level)
 	log.ReplaceGlobals(zap.New(core), &log.ZapProperties{Core: core, Level: zap.NewAtomicLevelAt(level)})
 }
@@ -187,6 +191,9 @@ func (w *world) reload() string {
 }
 
 func (w *world) served() string {
+	if w.panicked {
+		return "?" // the cluster lock may still be held by the goroutine that panicked
+	}
 	rs := w.rc.ScanRegions([]byte(""), []byte(""), 0)
 	if len(rs) == 0 {
 		return "-"
@@ -199,6 +206,9 @@ func (w *world) served() string {
 }
 
 func (w *world) stored() string {
+	if w.panicked {
+		return "?"
+	}
 	var metas []*metapb.Region
 	err := w.storage.LoadRegions(func(r *core.RegionInfo) []*core.RegionInfo {
 		metas = append(metas, r.GetMeta())
@@ -232,7 +242,10 @@ func (w *world) exec(op string) string {
 	f := strings.Fields(op)
 	u := func(s string) uint64 { n, _ := strconv.ParseUint(s, 10, 64); return n }
 	switch {
+	case (len(f) == 2 && f[0] == "reset" && f[1] == "grpc") || f[0] == "sopen" || f[0] == "sclose" || f[0] == "ssend":
+		return w.grpcExec(f)
 	case f[0] == "reset" && len(f) <= 2:
+		w.stopGRPC(false)
 		w.reset(len(f) == 2 && f[1] == "leveldb")
 		return "ok"
 	case len(f) == 1 && f[0] == "flush":
@@ -303,19 +316,41 @@ func (w *world) exec(op string) string {
 		}
 		specs = append(specs, cur)
 		res := make([]string, len(specs))
-		var wg sync.WaitGroup
+		type one struct {
+			i int
+			v string
+		}
+		ch := make(chan one, len(specs))
 		start := make(chan struct{})
 		for i, sp := range specs {
 			r := regionh.ParseSpec(sp).Region()
-			wg.Add(1)
 			go func(i int, r *core.RegionInfo) {
-				defer wg.Done()
 				<-start
-				res[i] = w.handle(r)
+				ch <- one{i, w.handle(r)}
 			}(i, r)
 		}
 		close(start)
-		wg.Wait()
+		for n := 0; n < len(specs); n++ {
+			// a goroutine that panicked inside the locked section leaves the cluster lock held: the others
+			// never return; they are reported as "hung" (and abandoned with this cluster)
+			var timeout <-chan time.Time
+			if w.panicked {
+				timeout = time.After(2 * time.Second)
+			}
+			select {
+			case o := <-ch:
+				res[o.i] = o.v
+			case <-timeout:
+				for i := range res {
+					if res[i] == "" {
+						res[i] = "hung"
+					}
+				}
+				n = len(specs)
+			case <-time.After(60 * time.Second):
+				panic("conc: a heartbeat did not return")
+			}
+		}
 		return fmt.Sprintf("%s S=%s M=%s", strings.Join(res, ","), w.served(), w.stored())
 	case len(f) == 2 && f[0] == "get":
 		return regionh.Render(w.rc.GetRegion(u(f[1])))
@@ -742,6 +777,90 @@ func (g *gen) deliver() {
 	}
 }
 
+// grpcSequence: heartbeats through Server.RegionHeartbeat of an in-process server: region 2 (bootstrap, whole key
+// space) and its splits, leaders on stores 1..3, one stream per store; a store re-opens its stream now and then
+// and the first message on the new stream is often an outdated one
+func (g *gen) grpcSequence() {
+	renderingLogger(zapcore.ErrorLevel)
+	g.kinds["seq-grpc"]++
+	g.w.run(g.t, "reset grpc")
+	type reg struct {
+		id, ver, conf, term uint64
+		start, end          string
+		peers               [3]uint64 // peer ids on stores 1..3
+	}
+	nextPeer := uint64(10)
+	nextID := uint64(10)
+	mk := func(id uint64, start, end string) *reg {
+		r := &reg{id: id, ver: 2, conf: 2, term: 5, start: start, end: end}
+		for i := range r.peers {
+			nextPeer++
+			r.peers[i] = nextPeer
+		}
+		return r
+	}
+	regs := []*reg{mk(2, "_", "_")}
+	spec := func(r *reg, leaderStore int) string {
+		var ps []string
+		for i, p := range r.peers {
+			ps = append(ps, fmt.Sprintf("%d.%d.v", p, i+1))
+		}
+		return fmt.Sprintf("%d %s %s %d %d %d %d %d %s -", r.id, r.start, r.end, r.ver, r.conf, r.term,
+			uint64(g.r.Range(1, 64))<<20, r.peers[leaderStore-1], strings.Join(ps, ","))
+	}
+	var old []string // heartbeats that were produced earlier (possibly outdated by now), with their store
+	var oldStore []int
+	gen := map[int]int{}
+	name := func(st int) string { return fmt.Sprintf("s%d.%d", st, gen[st]) }
+	for st := 1; st <= 3; st++ {
+		g.w.run(g.t, "sopen "+name(st))
+	}
+	for i, n := 0, g.r.Range(8, 14); i < n; i++ {
+		r := regs[g.r.Intn(len(regs))]
+		st := g.r.Range(1, 3)
+		switch g.r.Intn(4) {
+		case 0: // split
+			if len(regs) < 4 {
+				k := fmt.Sprintf("%02x", 0x20*len(regs))
+				if (r.start == "_" || r.start < k) && (r.end == "_" || k < r.end) {
+					nextID++
+					nr := mk(nextID, k, r.end)
+					nr.ver, nr.conf = r.ver+1, r.conf
+					r.end = k
+					r.ver++
+					regs = append(regs, nr)
+					old = append(old, spec(nr, st))
+					oldStore = append(oldStore, st)
+					g.w.run(g.t, fmt.Sprintf("ssend %s %s", name(st), spec(nr, st)))
+				}
+			}
+		case 1: // leader change
+			r.term++
+		case 2:
+			r.conf++
+		}
+		s := spec(r, st)
+		old = append(old, s)
+		oldStore = append(oldStore, st)
+		if g.r.Bool(1, 3) {
+			// the store reconnects: the first message on the new stream is an earlier (often outdated) heartbeat
+			g.w.run(g.t, "sclose "+name(st))
+			gen[st]++
+			g.w.run(g.t, "sopen "+name(st))
+			j := g.r.Intn(len(old))
+			if oldStore[j] == st {
+				g.kinds["grpc-first-message-old"]++
+				g.w.run(g.t, fmt.Sprintf("ssend %s %s", name(st), old[j]))
+			}
+		}
+		g.w.run(g.t, fmt.Sprintf("ssend %s %s", name(st), s))
+		if g.r.Bool(1, 2) {
+			j := g.r.Intn(len(old))
+			g.w.run(g.t, fmt.Sprintf("ssend %s %s", name(oldStore[j]), old[j]))
+		}
+	}
+}
+
 func (g *gen) sequence(maxOps int, kind int) {
 	// pd's log entries are rendered (into a discard sink): at debug level in every third sequence, otherwise from
 	// error level up (what a production server renders at least)
@@ -817,12 +936,14 @@ func main() {
 	maxOps := flag.Int("len", 150, "max steps per sequence")
 	conc := flag.Bool("conc", false, "also deliver batches of heartbeats concurrently")
 	stream := flag.Uint64("stream", 0, "PRNG stream")
+	grpcSeq := flag.Int("grpc", 2, "streams whose number is a multiple of this run one sequence through Server.RegionHeartbeat of an in-process server (0 = none)")
 	ldb := flag.Int("leveldb", 6, "one sequence in this many runs on the leveldb region storage with its write batch (0 = never)")
 	flag.Parse()
 
 	w := &world{}
 	w.reset(false)
 	defer w.reset(false)
+	defer w.stopGRPC(true)
 	t := trace.Create(*out)
 	defer t.Close()
 	if *replay != "" {
@@ -836,7 +957,12 @@ func main() {
 	for s := 0; s < *n; s++ {
 		g.conc = *conc && s%4 == 3 // batches of concurrently handled heartbeats in every 4th sequence
 		g.ldb = *ldb > 0 && s%*ldb == 1 && !g.conc
+
 		g.sequence(*maxOps, []int{0, 0, 1, 0, 2}[s%5])
+	}
+	if *grpcSeq > 0 && int(*stream)%*grpcSeq == 0 {
+		// last, so that the server can simply be abandoned when the process ends
+		g.grpcSequence()
 	}
 	var ks []string
 	for k := range g.kinds {
